@@ -37,7 +37,31 @@ def main():
         meta["confirm"] = {"demo_clean_exit": rc0, "demo_mutant_exit": rc1, "pytest_tail": outt.strip().split("\n")[-1], "demo_mutant_tail": out1.strip().split("\n")[-3:]}
         print("confirm:", meta["confirm"]["demo_clean_exit"], meta["confirm"]["demo_mutant_exit"], meta["confirm"]["pytest_tail"])
         meta["ran"] += [f"cd {wt} && python {mdir}/demo.py (clean) -> {rc0}", "git apply patch.diff; pytest test -> " + meta["confirm"]["pytest_tail"], f"demo (mutant) -> {rc1}"]
-    # run the checks against /repo with the patch
+    # run the checks against /repo with the patch — or, with --private=<k>, from a private copy of /verif against a private worktree of
+    # /repo (so that several evaluations, or an evaluation and a sweep on /repo itself, can run side by side)
+    priv = [a.split("=")[1] for a in sys.argv[4:] if a.startswith("--private")]
+    if priv:
+        vw, rw = f"/tmp/verif_e{priv[0]}", f"/tmp/repo_e{priv[0]}"
+        sh(f"rm -rf {vw}; git -C /repo worktree remove --force {rw}; rm -rf {rw}")
+        sh(f"rsync -a --exclude replays --exclude .git {VERIF}/ {vw}/")
+        rc, out = sh(f"git -C /repo worktree add --detach {rw} HEAD"); assert rc == 0, out
+        rc, out = sh(f"git -C {rw} apply {dst}/patch.diff"); assert rc == 0, out
+        res = {}
+        try:
+            for c in checks:
+                for tier in ("quick", "thorough"):
+                    t0 = time.time()
+                    rcx, outx = sh(f"EBISIM_REPO={rw} {PY} tools/check.py {c} --tier {tier}", cwd=vw)
+                    lines = [l for l in outx.split("\n") if l.startswith("VIOLATION") or l.startswith("  what") or l.startswith("  broken") or " -> exit" in l]
+                    res.setdefault(c, {}).update({f"{tier}_exit": rcx, f"{tier}_s": round(time.time() - t0, 1), f"{tier}_lines": lines[:8]})
+                    print(c, tier, "->", rcx, lines[:3], flush=True)
+                    if rcx != 0: break
+        finally:
+            sh(f"git -C /repo worktree remove --force {rw}; rm -rf {vw} {rw}")
+        meta["checks"] = res
+        meta["ran"].append("private copy of /verif + private worktree of /repo with the patch; tools/check.py <id> --tier quick [thorough if quick passed]")
+        json.dump(meta, open(os.path.join(dst, "meta.json"), "w"), indent=1)
+        return
     rc, out = sh(f"git -C /repo apply {dst}/patch.diff")
     assert rc == 0, out
     res = {}
